@@ -11,7 +11,7 @@ class Recorder:
 
     def __init__(self, prop, tier, seed):
         self.prop = prop; self.tier = tier; self.seed = seed; self.rng = random.Random(seed)
-        self.calls = []; self.notes = []; self.assumptions = []; self.broken = []; self.extra = {}; self.samples = []
+        self.calls = []; self.notes = []; self.assumptions = []; self.broken = []; self.extra = {}; self.samples = []; self.undecided = []
 
     def violation(self, *a, **k):
         self.calls.append(('violation', a, k))
@@ -72,8 +72,8 @@ def merge(run, rec):
         return
     for name, a, k in rec['calls']:
         getattr(run, name)(*a, **k)
-    for nm in ('notes', 'assumptions', 'broken', 'samples'):
-        for x in rec[nm]:
+    for nm in ('notes', 'assumptions', 'broken', 'samples', 'undecided'):
+        for x in rec.get(nm, []):
             if x not in getattr(run, nm):
                 getattr(run, nm).append(x)
     run.extra.update(rec['extra'])
@@ -95,7 +95,7 @@ def _main(inp, out):
         payload = getattr(mod, job['func'])(rec, **job['args'])
     except Exception:
         rec.broken.append('%s.%s crashed in the child process: %s' % (job['module'], job['func'], traceback.format_exc()[-2000:]))
-    pickle.dump(dict(recorder=dict(calls=rec.calls, notes=rec.notes, assumptions=rec.assumptions, broken=rec.broken, extra=rec.extra, samples=rec.samples[:12]), payload=payload), open(out, 'wb'))
+    pickle.dump(dict(recorder=dict(calls=rec.calls, notes=rec.notes, assumptions=rec.assumptions, broken=rec.broken, extra=rec.extra, samples=rec.samples[:12], undecided=getattr(rec, 'undecided', [])), payload=payload), open(out, 'wb'))
     sys.stdout.flush()
     os._exit(0)          # skip interpreter tear-down (a corrupted heap that did not crash yet must not turn a finished run into a crash report twice)
 
